@@ -49,6 +49,7 @@ SPLINE_UNCOVERED = []
 CHECKS = {
     "C04": {
         "units": ["dateroll"],
+        "kani": {"quick": ["chrono_view_is_days_from_civil", "chrono_from_ymd_validity"], "thorough": ["chrono_view_is_days_from_civil", "chrono_from_ymd_validity", "chrono_add_days", "chrono_sub_days"]},
         "level": "proof",
         "assumptions": CHRONO_ASSUMPTIONS + [
             "dynamic dispatch `&dyn DateRoll` replaced by static `&impl DateRoll1` (R7); no implementor overrides a default method",
@@ -59,6 +60,7 @@ CHECKS = {
     },
     "C05": {
         "units": ["dateroll"],
+        "kani": {"quick": ["chrono_view_is_days_from_civil", "chrono_from_ymd_validity"], "thorough": ["chrono_view_is_days_from_civil", "chrono_from_ymd_validity", "chrono_add_days", "chrono_sub_days"]},
         "level": "proof",
         "assumptions": CHRONO_ASSUMPTIONS + [
             "the n-th business day (and, with settlement, an eligible day beyond it) exists inside chrono's range (add_bus_pre / lag_pre); bus_date_range additionally needs a business day after `end` (the real loop computes it)",
@@ -67,6 +69,7 @@ CHECKS = {
     },
     "C08": {
         "units": ["dateroll"],
+        "kani": {"quick": ["chrono_view_is_days_from_civil", "chrono_from_ymd_validity"], "thorough": ["chrono_view_is_days_from_civil", "chrono_from_ymd_validity", "chrono_add_days", "chrono_sub_days"]},
         "level": "proof",
         "assumptions": CHRONO_ASSUMPTIONS + [
             "specs of i32::abs / signum / rem_euclid / TryFrom (shim/intspecs.rs)",
@@ -76,6 +79,7 @@ CHECKS = {
     },
     "C20": {
         "units": ["dateroll"],
+        "kani": {"quick": ["chrono_view_is_days_from_civil", "chrono_from_ymd_validity"], "thorough": ["chrono_view_is_days_from_civil", "chrono_from_ymd_validity", "chrono_add_days", "chrono_sub_days"]},
         "level": "proof",
         "assumptions": CHRONO_ASSUMPTIONS,
         "uncovered": [
@@ -162,6 +166,7 @@ CHECKS = {
     },
     "C06": {
         "units": ["calendars"],
+        "kani": {"quick": ["chrono_view_is_days_from_civil", "chrono_from_ymd_validity"], "thorough": ["chrono_view_is_days_from_civil", "chrono_from_ymd_validity", "chrono_add_days", "chrono_sub_days"]},
         "level": "proof",
         "assumptions": CHRONO_ASSUMPTIONS + [
             "get_calendar_by_name(name) returns the calendar named_cal(name) or an error when the name is unknown (assumed contract; its tables and wiring are decided by C07)",
@@ -190,6 +195,7 @@ CHECKS = {
     },
     "C13": {
         "units": ["linalg", "linalg_f64"],
+        "kani": {"quick": ["row_swap_swaps_exactly_two_rows", "el_swap_swaps_exactly_two_elements", "argabsmax_is_an_index_of_largest_abs"], "thorough": ["row_swap_swaps_exactly_two_rows", "el_swap_swaps_exactly_two_elements", "argabsmax_is_an_index_of_largest_abs"]},
         "level": "proof",
         "assumptions": [
             "machine arithmetic treated as mathematical: the generic element type T is an abstract commutative ring (shim/ring.rs); f64 rounding, inf and NaN are outside the model",
